@@ -4,13 +4,14 @@ import pandas as pd
 
 from vf.core import digest
 
-SHARDS = {"quick": 4, "thorough": 16}
+SHARDS = {"quick": 16, "thorough": 16}
 WATCHDOG = {"quick": 900, "thorough": 3600}
-CASES = {"quick": 400, "thorough": 4000}
+CASES = {"quick": 1000, "thorough": 8000}
 FLOORS = {
-    "quick": {"distinct_nontrivial": 500, "segments_checked": 1000, "invalid_args_checked": 150,
-              "outlier_cases": 100, "cases[n=1]": 3, "cases[seed=0]": 10},
-    "thorough": {"distinct_nontrivial": 10000, "segments_checked": 30000},
+    "quick": {"distinct_nontrivial": 5500, "segments_checked": 9800, "invalid_args_checked": 1200,
+              "outlier_cases": 1200, "outlier_frames[concat]": 160, "outlier_frames[assigned]": 160,
+              "cases[n=1]": 320, "cases[seed=0]": 250},
+    "thorough": {"distinct_nontrivial": 40000, "segments_checked": 100000, "outlier_frames[concat]": 800},
 }
 ANCHORS = [
     "skchange.datasets.generate.generate_changing_data",
@@ -111,7 +112,9 @@ def make_recipe(rng, tier):
                  variance=float(np.exp(rng.uniform(-2, 2)).__round__(4)),
                  affected_proportion=float(rng.choice([1.0, 0.5, 0.0, 0.34, 0.8])))
     elif gen == "outliers":
-        r.update(n_outliers=int(rng.integers(1, n + 1)), outlier_size=float(rng.normal(0, 10).__round__(3)))
+        r.update(n_outliers=int(rng.integers(1, n + 1)), outlier_size=float(rng.normal(0, 10).__round__(3)),
+                 frame=["single", "single", "concat", "assigned", "fortran", "datetime", "offset", "view"][
+                     int(rng.integers(8))])
     else:
         r["n"] = n = max(n, 4)
         r["bad"] = ["too-few-means", "too-many-variances", "cpt-beyond-n", "cpt-negative",
@@ -151,12 +154,16 @@ def exec_case(ctx, r):
         except Exception as ex:
             return "other", f"{type(ex).__name__}: {ex}"
 
-    def basic(df, nn, pp, label):
+    def basic(df, nn, pp, label, index=None):
         if not isinstance(df, pd.DataFrame) or df.shape != (nn, pp):
             ctx.violation(sub, "shape", f"{label}: output {type(df).__name__} shape "
                           f"{getattr(df, 'shape', None)} != ({nn}, {pp})", r)
             return False
-        if not _index_ok(df, nn):
+        if index is not None:
+            if not df.index.equals(index):
+                ctx.violation(sub, "index", f"{label}: index differs from the input frame's: {df.index!r:.200}", r)
+                return False
+        elif not _index_ok(df, nn):
             ctx.violation(sub, "index", f"{label}: index is not 0..n-1: {df.index!r}", r)
             return False
         if not np.all(np.isfinite(df.to_numpy())):
@@ -275,16 +282,44 @@ def exec_case(ctx, r):
             ctx.nt(digest(r))
     elif gen == "outliers":
         k, size = r["n_outliers"], r["outlier_size"]
-        base = pd.DataFrame(np.random.default_rng(seed).standard_normal((n, p)),
-                            columns=[f"var{i}" for i in range(p)])
+        vals = np.random.default_rng(seed).standard_normal((n, p))
+        cols = [f"var{i}" for i in range(p)]
+        frame = r.get("frame", "single")
+        # the same numbers in frames of different internal structure / index (all ordinary ways of
+        # building a frame): one block, several blocks (concat / column assignment), Fortran order,
+        # datetime or offset index, a column subset of a wider frame
+        if frame == "concat" and p >= 2:
+            h = p // 2
+            base = pd.concat([pd.DataFrame(vals[:, :h].copy(), columns=cols[:h]),
+                              pd.DataFrame(vals[:, h:].copy(), columns=cols[h:])], axis=1)
+        elif frame == "assigned":
+            base = pd.DataFrame(index=pd.RangeIndex(n))
+            for j, c in enumerate(cols):
+                base[c] = vals[:, j]
+        elif frame == "fortran":
+            base = pd.DataFrame(np.asfortranarray(vals), columns=cols)
+        elif frame == "datetime":
+            base = pd.DataFrame(vals.copy(), columns=cols, index=pd.date_range("2021-03-01", periods=n, freq="D"))
+        elif frame == "offset":
+            base = pd.DataFrame(vals.copy(), columns=cols, index=pd.RangeIndex(5, 5 + 3 * n, 3))
+        elif frame == "view":
+            wide = pd.DataFrame(np.column_stack((vals, np.zeros((n, 2)))), columns=cols + ["extra1", "extra2"])
+            base = wide[cols].copy()
+        else:
+            base = pd.DataFrame(vals.copy(), columns=cols)
+        ctx.stat(f"outlier_frames[{frame}]")
         before = base.to_numpy().copy()
-        label = f"add_linspace_outliers(df[{n}x{p}], n_outliers={k}, outlier_size={size})"
+        index_before = base.index.copy()
+        label = f"add_linspace_outliers(df[{n}x{p}] built as {frame}, n_outliers={k}, outlier_size={size})"
         ctx.stat("outlier_cases")
         st, out = call(add_linspace_outliers, base, k, size)
         if st != "ok":
             ctx.violation(sub, "valid-call-raised", f"{label}: {st}: {out}", r)
             return
-        if not basic(out, n, p, label):
+        if not basic(out, n, p, label, index=index_before):
+            return
+        if list(out.columns) != cols:
+            ctx.violation(sub, "columns", f"{label}: columns {list(out.columns)} != {cols}", r)
             return
         want = before.copy()
         rows = np.linspace(0, n - 1, k, dtype=int)
